@@ -2,4 +2,12 @@ from pyvc.runner import register_modules
 
 register_modules("C10", "contracts.C10_tcp", "bounded.C10_api")
 LEVEL = "proof"
-ASSUMPTIONS = ["A-EXT: POSIX contract of socket.send / select.select (SocketSendExt)"]
+EXPLANATION = ("TcpConnection.send_data against the assumed POSIX contract of a non-blocking stream socket (any partial count, any error): True only after "
+               "the ghost wire grew by exactly `data` - every message size, every pacing (loop invariant, unbounded).  HsmsProtocol._process_send_queue "
+               "against that contract of send_data: frames are cut into 1 MiB chunks handed over in order, a frame is resolved with success exactly when "
+               "the wire ends with all its bytes and with failure at the first refused chunk, after which the loop stops; never parks in get() "
+               "(frames of 1 B .. 3 MiB, i.e. up to 3 chunks: bounded shape).  Loopback pass on real sockets for the end-to-end statement.")
+ASSUMPTIONS = ["A-EXT: POSIX contract of socket.send / select.select (SocketSendExt)",
+               "A-EXT: queue.Queue through AbsQueue (empty/get with a pending counter); BlockSendInfo.resolve is a call-out whose obligations are its `requires`",
+               "send_data is used by _process_send_queue through the contract proved for it (SendDataUse restates SendData's postcondition plus 'False after any prefix')",
+               "frames larger than 3 MiB (more than 3 chunks): bounded pass only"]
